@@ -53,6 +53,7 @@ type Frame struct {
 	runningDefers bool
 	retVals []Value // saved results while running defers
 	scratch Value
+	loopHeader *ssa.BasicBlock // LoopStep: suspend this frame when control arrives here
 	contIP  int
 	contPhase int
 }
@@ -88,6 +89,8 @@ type State struct {
 	trace  []string
 	subst  map[int]*Term
 	lastNow *Term
+	symMem  bool
+	loop    *loopCtx
 	redirects map[string]*FuncV
 	switchesLeft int
 	preemptSync  bool
@@ -177,6 +180,21 @@ func (s *State) clone(e *Engine) *State {
 		}
 	}
 	n.lastNow = s.lastNow
+	n.symMem = s.symMem
+	if s.loop != nil {
+		lc := *s.loop
+		if lc.frame != nil {
+			nf := *lc.frame
+			nf.locals = append([]Value(nil), lc.frame.locals...)
+			nf.defers = lc.frame.defers[:len(lc.frame.defers):len(lc.frame.defers)]
+			nf.visits = make(map[int]int, len(lc.frame.visits))
+			for k, v := range lc.frame.visits {
+				nf.visits[k] = v
+			}
+			lc.frame = &nf
+		}
+		n.loop = &lc
+	}
 	n.redirects = s.redirects
 	n.switchesLeft, n.preemptSync, n.noTimers = s.switchesLeft, s.preemptSync, s.noTimers
 	n.nd = s.nd[:len(s.nd):len(s.nd)]
